@@ -13,6 +13,7 @@ def run(ctx):
     ctx.is_known = lambda key: next((f for f in ctx.known.get("findings", []) if f.get("property") == "C14"
                                      and f.get("key") == key and f.get("status") == "open"), None)
     n = c14g_part.part_cfg_passes(ctx)
+    n += c14g_part.part_asm_cfg(ctx)
     ctx.corr["evaluations"] = n
     ctx.corr["distinct_nontrivial"] = n
     ctx.corr["rule"] = "one per distinct changing invocation (pass, function before, function after) validated by cfg_check"
